@@ -351,8 +351,40 @@ int fdatasync(int fd) {
 
 int ftruncate64(int fd, off64_t len) {
     init();
-    if (fd >= 0 && fd < MAXFD && tracked[fd]) logf_("T %d %lld\n", fd, (long long)len);
+    if (fd >= 0 && fd < MAXFD && tracked[fd]) logf_("U ftruncate64 %lld\n", (long long)len);
     return real_ftruncate64(fd, len);
+}
+
+/* write-like calls the model of the commit does not know: logged as `U <name>` so that the shape check of
+   the crash stream refuses the trace instead of silently missing the bytes */
+#include <sys/uio.h>
+ssize_t writev(int fd, const struct iovec *iov, int cnt) {
+    init();
+    static ssize_t (*real)(int, const struct iovec *, int);
+    if (!real) real = dlsym(RTLD_NEXT, "writev");
+    if (fd >= 0 && fd < MAXFD && tracked[fd]) logf_("U writev\n");
+    return real(fd, iov, cnt);
+}
+ssize_t pwritev(int fd, const struct iovec *iov, int cnt, off_t off) {
+    init();
+    static ssize_t (*real)(int, const struct iovec *, int, off_t);
+    if (!real) real = dlsym(RTLD_NEXT, "pwritev");
+    if (fd >= 0 && fd < MAXFD && tracked[fd]) logf_("U pwritev\n");
+    return real(fd, iov, cnt, off);
+}
+ssize_t pwritev64(int fd, const struct iovec *iov, int cnt, off64_t off) {
+    init();
+    static ssize_t (*real)(int, const struct iovec *, int, off64_t);
+    if (!real) real = dlsym(RTLD_NEXT, "pwritev64");
+    if (fd >= 0 && fd < MAXFD && tracked[fd]) logf_("U pwritev64\n");
+    return real(fd, iov, cnt, off);
+}
+int ftruncate(int fd, off_t len) {
+    init();
+    static int (*real)(int, off_t);
+    if (!real) real = dlsym(RTLD_NEXT, "ftruncate");
+    if (fd >= 0 && fd < MAXFD && tracked[fd]) logf_("U ftruncate %lld\n", (long long)len);
+    return real(fd, len);
 }
 
 #include <sys/mman.h>
